@@ -1,6 +1,7 @@
 """C02 — features paint in file order; only covering features matter; operations compose."""
 import copy, json, os, random
 from common import *
+import twins
 
 LEVEL = "proof"
 RULE = ("correspondence: worlds with up to 6 overlapping area features / plumes, every operation, model vs library. oracle (library only): per query point the covering "
@@ -189,6 +190,9 @@ def oracle(seed, tier):
                                  "answer_full": bits(full[1]), "answer_derived": (bits(a[1]) if a[0] == "ok" else a)})
         if len(samples) < 2 and second:
             samples.append({"world": path, "point": second[0][0], "depth": second[0][1], "covering": second[0][5]})
+    # ---- (a') twin worlds: two disjoint features with the same model type and different parameters; each twin alone in a fresh process must answer alike
+    ct, nt = twins.twin_oracle(rng, 1000, wdir, viol)
+    cases += ct; nontriv += nt
     # ---- (d) operation algebra on stacks of uniform models
     for si in range(budget(tier, 12, 150)):
         sph = rng.random() < 0.3
